@@ -104,6 +104,9 @@ def guarded_assignments(fn):
 
 
 def check(run):
+    # hints cached from the block parameters are recomputed wherever the parameters change
+    from .. import derived as _derived
+    _derived.report(run, "R04.7", ["CDNS::CdnsBlock", "CDNS::CdnsBlockRead", "CDNS::CdnsExporter", "CDNS::FilePreamble", "CDNS::BlockParameters"])
     # a copied block applies the hints its preamble names: parameters and the preamble (which carries their index) travel together
     from . import C19
     C19.check_block_assignment(run, "R04.6", only=("m_block_parameters", "m_block_preamble"))
@@ -300,7 +303,22 @@ def check(run):
            "write_block() must re-arm with m_file_preamble.get_block_parameters(i) and the same i as the block's index")
     sbp = facts.fn("CDNS::CdnsBlock::set_block_parameters", rule="R04.5")
     aset = {lp: rhs for lp, rhs, node in consumption.assignment_targets(ir.stmts(sbp["body"])) if lp}
-    ok = path(aset.get(("this", "m_block_parameters"))) == ("p:%s" % sbp["params"][0]["n"],) and \
+    src_bp = path(aset.get(("this", "m_block_parameters"))) if aset.get(("this", "m_block_parameters")) is not None else None
+    if src_bp is None:
+        # copy-and-swap: `BlockParameters next(bp); swap(m_block_parameters, next);`
+        env_s = Env(sbp["body"])
+        for c in ir.calls_in(sbp["body"]):
+            if callee_name(c) == "swap":
+                ops = [path(x) for x in ([c.get("recv")] if c.get("k") == "MCall" else []) + list(c.get("args", [])) if x is not None]
+                if ("this", "m_block_parameters") in ops:
+                    other = [o for o in ops if o and o != ("this", "m_block_parameters")]
+                    d_ = env_s.defs.get(other[0][0]) if other and len(other[0]) == 1 else None
+                    u_ = unwrap_all_casts(d_) if d_ is not None else None
+                    while isinstance(u_, dict) and u_.get("k") == "Construct" and len(u_.get("args", [])) == 1:
+                        u_ = unwrap_all_casts(u_["args"][0])
+                    if isinstance(u_, dict) and path(u_):
+                        src_bp = path(u_)
+    ok = src_bp == ("p:%s" % sbp["params"][0]["n"],) and \
         path(unwrap_all_casts(aset.get(("this", "m_block_preamble", "block_parameters_index")))) == ("p:%s" % sbp["params"][1]["n"],)
     run.ob("R04.5", "set_block_parameters:both", ok, sbp, sbp["line"], "parameters and their index are set together")
     # ... on every path on which the block is empty: no other early exit may skip the copy (the index does not
